@@ -526,7 +526,9 @@ pub fn check_once(bins: &Binaries, s: &Scenario, env: &Env, reverse_creation: bo
             // a proof outline that is given must be used: without it the canonical invocation has to come out differently
             // (only in the universal direction: an outline may hold lemmas for one direction only)
             let single_direction = s.options.windows(2).any(|w| w[0] == "--direction" && w[1] != "universal") || s.options.iter().any(|o| o.starts_with("--direction=") && o != "--direction=universal");
-            if verdict.is_none() && want.ok && cfiles.iter().any(|f| f.0 == "c.po") && s.equivalence == "external" && !single_direction {
+            // ... unless the outline has an entry without a direction annotation, which counts in every direction
+            let unannotated = cfiles.iter().find(|f| f.0 == "c.po").map(|f| f.1.lines().any(|l| { let l = l.trim_start(); l.starts_with("lemma:") || l.starts_with("inductive-lemma:") })).unwrap_or(false);
+            if verdict.is_none() && want.ok && cfiles.iter().any(|f| f.0 == "c.po") && s.equivalence == "external" && (!single_direction || unannotated) {
                 let cout2 = scratch.lock().unwrap().fresh_dir("out");
                 let names_no_po: Vec<String> = names.iter().filter(|n| *n != "c.po").cloned().collect();
                 let without = verify(bins, &s.options, &names_no_po, &cdir, &cout2, &Env::plain());
